@@ -20,26 +20,46 @@ def classify(e):
     return "C17|invariant|%s" % ev, "an invariant of Stats.tla (Conservation/Bounded/UntrackedZero/MergePreserves) is false after this event"
 
 
-def decide(c, trace, tag):
-    ok, verdict, tres = vlib.validate_trace("Trace_Stats", "Trace_Stats.cfg", trace, "C17/trace_" + tag, timeout=3000, xmx="8g")
-    c.add_model("Trace_Stats(%s)" % tag, tres)
-    n = 0
-    events = []
+CHUNK = 150000
+
+
+def chunks_of(trace):
+    """split an ndjson trace at section boundaries ("new" events) into pieces of at most CHUNK lines"""
+    cur = []
     with open(trace) as f:
         for line in f:
-            events.append(line)
-    if verdict.get("matched", len(events)) != len(events):
-        raise vlib.ToolError("Trace_Stats did not consume the whole trace")
-    c.evaluations += len(events)
-    bad = sorted(set(verdict.get("bad", []))) if not ok else []
-    for idx in bad:
-        e = json.loads(events[idx - 1]) if 1 <= idx <= len(events) else {"ev": "?"}
-        key, what = classify(e)
-        c.violation(key, what, {"direction": tag, "event_index": idx, "event": e, "trace": trace})
-    sections = sum(1 for l in events if l.startswith('{"ev":"new"'))
-    if not bad:
-        c.traces_validated += sections
-    return events
+            if line.startswith('{"ev":"new"') and len(cur) >= CHUNK:
+                yield cur
+                cur = []
+            cur.append(line)
+    if cur:
+        yield cur
+
+
+def decide(c, trace, tag):
+    all_events = []
+    any_bad = False
+    for k, lines in enumerate(chunks_of(trace)):
+        part = vlib.workfile("C17", "part_%s_%d.ndjson" % (tag.replace(">", ""), k))
+        with open(part, "w") as f:
+            f.writelines(lines)
+        ok, verdict, tres = vlib.validate_trace("Trace_Stats", "Trace_Stats.cfg", part, "C17/trace_%s_%d" % (tag.replace(">", ""), k), timeout=3000, xmx="8g")
+        c.add_model("Trace_Stats(%s, part %d)" % (tag, k), tres)
+        if verdict.get("matched", len(lines)) != len(lines):
+            raise vlib.ToolError("Trace_Stats did not consume the whole trace")
+        c.evaluations += len(lines)
+        bad = sorted(set(verdict.get("bad", []))) if not ok else []
+        for idx in bad:
+            e = json.loads(lines[idx - 1]) if 1 <= idx <= len(lines) else {"ev": "?"}
+            key, what = classify(e)
+            c.violation(key, what, {"direction": tag, "part": k, "event_index": idx, "event": e, "trace": part})
+        any_bad = any_bad or bool(bad)
+        if not bad:
+            c.traces_validated += sum(1 for l in lines if l.startswith('{"ev":"new"'))
+        if len(all_events) < 400000:
+            all_events.extend(lines)
+        os.remove(part)
+    return all_events
 
 
 def run(tier):
@@ -56,6 +76,16 @@ def run(tier):
         res = vlib.run_tlc("MC_Stats", "MC_Stats_%s.cfg" % tier, "C17/mc", workers=12, timeout=3000, print_sink=sink, xmx="8g")
     vlib.expect_model_ok(res, "Stats.tla")
     c.add_model("MC_Stats/%s" % tier, res, {"FullMeansOverflow": False})
+    # at most ~250,000 behaviours are executed (a seeded stride sample when the model yields more)
+    if n[0] > 250000:
+        stride = n[0] // 250000 + 1
+        sampled = vlib.workfile("C17", "behaviours_sampled.ndjson")
+        with open(beh) as fi, open(sampled, "w") as fo:
+            for k, line in enumerate(fi):
+                if (k + c.seed) % stride == 0:
+                    fo.write(line)
+        c.notes.append("spec->code: %d behaviours from TLC, every %d-th executed" % (n[0], stride))
+        beh = sampled
     t1 = vlib.workfile("C17", "replay_trace.ndjson")
     out = vlib.run_harness(["stats", "replay", "--in", beh, "--out", t1], timeout=3000)
     c.behaviours_replayed = out[-1]["executions"] if out else 0
